@@ -4,8 +4,8 @@ from harness import cxx_run as X
 
 class C01(ProgProp):
     id = 'C01'
-    theorems = ['C01.store_after_assigns', 'C01.env_to_comp_mts_provides', 'C01.env_to_comp_sts', 'C01.comp_to_env_mts_provides', 'C01.requires_out_posted_then_delivered', 'C01.lambdaParams_names', 'C01.args_declared_order', 'C01.runAssigns_get_of', 'C01.compBind_get', 'C01.constructed_store', 'C01.constructed_forwards_in_event', 'C01.assign_origin', 'C01.in_event_assigned', 'C01.generated_forwards_in_event', 'C01.generated_forwards_requires_out', 'C01.generated_forwards_provides_out', 'C01.buildShell_inv', 'C01.elements_in_allPorts', 'C01.build_forwards_in_event', 'C01.build_forwards_requires_out', 'C01.build_forwards_provides_out', 'C01.ex_forwarded', 'C01.parseSlot_str', 'C01.slot_str_injective']
-    proof_modules = ['DznProofs.C01', 'DznProofs.C01Gen', 'DznProofs.C01Example', 'DznProofs.C01Parse']
+    theorems = ['C01.store_after_assigns', 'C01.env_to_comp_mts_provides', 'C01.env_to_comp_sts', 'C01.comp_to_env_mts_provides', 'C01.requires_out_posted_then_delivered', 'C01.lambdaParams_names', 'C01.args_declared_order', 'C01.runAssigns_get_of', 'C01.compBind_get', 'C01.constructed_store', 'C01.constructed_forwards_in_event', 'C01.assign_origin', 'C01.in_event_assigned', 'C01.generated_forwards_in_event', 'C01.generated_forwards_requires_out', 'C01.generated_forwards_provides_out', 'C01.buildShell_inv', 'C01.elements_in_allPorts', 'C01.build_forwards_in_event', 'C01.build_forwards_requires_out', 'C01.build_forwards_provides_out', 'C01.ex_forwarded', 'C01.parseSlot_str', 'C01.slot_str_injective', 'SemReact.invokeR_nil', 'SemReact.drainR_nil']
+    proof_modules = ['DznProofs.C01', 'DznProofs.C01Gen', 'DznProofs.C01Example', 'DznProofs.C01Parse', 'DznProofs.SemReact']
     level_rule = ('compiled programs: real generator output + mock runtime; models with ports sharing an interface, '
                   '0-5 events x 0-3 formals (in/out/inout), valued in-events, multi-client ports, namespace nesting; '
                   'random scripts of ~30 call/raise/reply/pump ops; the program trace is compared with the Lean '
